@@ -13,6 +13,11 @@
 (*   "RedialStrippedName"     when resolution of a rooted name ("example.com.") fails, _new_conn     *)
 (*                            dials the dot-stripped relative name, which a resolver may expand      *)
 (*                            through its search list to a different machine                         *)
+(*   "KeyStripsTrailingDot"   the pool key drops a trailing dot: "svc.test." and "svc.test" share one pool, built   *)
+(*                            from whichever spelling came first, so the other spelling travels over a socket  *)
+(*                            dialled to the wrong name (kept alive, or re-dialled with the first spelling)    *)
+(* The manager keeps one pool per key; a pool remembers the dial address of its creator and whether it holds  *)
+(* an open (kept-alive) connection; the server may close after a reply (environment choice).                  *)
 (* RULES: every request of the history is judged by Url!WireClauses on its OWN URL (the same        *)
 (* operator the trace monitor uses), and the manager's defaults are unchanged afterwards.            *)
 (* Stage 1: with Deviations = {} every invariant holds; with {"DefaultHeadersMutated"} TLC refutes   *)
@@ -22,14 +27,17 @@ EXTENDS Url
 CONSTANTS Origins,      \* set of URL texts (code points) the caller may request
           MaxReq,       \* length of a history
           Deviations,   \* subset of {"DefaultHeadersMutated", "RedialStrippedName"}
-          ProxyText     \* the proxy's URL (code points)
+          ProxyText,    \* the proxy's URL (code points)
+          PxChoices,    \* subset of {NONE, ProxyText}: manager kinds explored
+          PerReqs, Fails, Closes   \* subsets of BOOLEAN: per-request headers / resolution failure / server closes
 
 VARIABLES px,           \* NONE (PoolManager) or ProxyText (ProxyManager)
           defaults0,    \* the manager's default headers as constructed: [nonempty, host]
           defaults,     \* ... as they are now
-          hist          \* observations, one per request (shape of Url!WireClauses' argument)
+          hist,         \* observations, one per request (shape of Url!WireClauses' argument)
+          pools         \* pool key -> [dial |-> <<host, port>> of its creator, open |-> a kept-alive connection exists]
 
-hvars == <<s, px, defaults0, defaults, hist>>
+hvars == <<s, px, defaults0, defaults, hist, pools>>
 
 PxOf(p) == IF p = NONE THEN "none" ELSE "proxy"
 \* Url.netloc: host, and the port when it is truthy
@@ -46,34 +54,47 @@ Requests(R, W, src) ==
     (IF W.mode = "tunnel" THEN << [m |-> "CONNECT", t |-> W.connect, hosts |-> <<W.connect>>] >> ELSE <<>>)
     \o << [m |-> "GET", t |-> W.target, hosts |-> <<HostSent(R, W, src)>>] >>
 
-Obs(u, perreq, fail, k, dials, req, snis) ==
-    [s |-> u, px |-> px, k |-> k, dials |-> dials, req |-> req, snis |-> snis, vars |-> <<>>,
-     fault |-> fail, u3 |-> TRUE, perreq |-> perreq]
+Obs(u, perreq, fail, close, k, dials, carrier, req, snis) ==
+    [s |-> u, px |-> px, k |-> k, dials |-> dials, carrier |-> carrier, req |-> req, snis |-> snis, vars |-> <<>>,
+     fault |-> fail, u3 |-> TRUE, perreq |-> perreq, closed |-> close]
 
-Step(u, perreq, fail, R, W, src) ==
-    LET dial == <<W.dialhost, W.dialport>>
-        sent == Obs(u, perreq, fail, "sent", <<dial>>, Requests(R, W, src), IF W.sni = NONE THEN <<>> ELSE <<W.sni>>)
+\* all forwarded requests share the proxy's pool; otherwise (scheme, host, port) - the deviation drops the dot
+KeyOf(W) == IF W.mode = "forward" THEN <<"proxy">>
+            ELSE <<W.key[1], IF "KeyStripsTrailingDot" \in Deviations THEN StripDots(W.key[2]) ELSE W.key[2], W.key[3]>>
+
+Step(u, perreq, fail0, close, R, W, src, key) ==
+    LET exists == key \in DOMAIN pools
+        dial == IF exists THEN pools[key].dial ELSE <<W.dialhost, W.dialport>>       \* the pool dials its creator's address
+        reuse == exists /\ pools[key].open
+        fail == fail0 /\ ~reuse                                                      \* nothing is resolved on reuse
+        reqs == IF reuse /\ W.mode = "tunnel" THEN <<Requests(R, W, src)[2]>> ELSE Requests(R, W, src)
+        sent == Obs(u, perreq, fail, close, "sent", IF reuse THEN <<>> ELSE <<dial>>, dial, reqs,
+                    IF W.sni = NONE \/ reuse THEN <<>> ELSE <<W.sni>>)
+        redial == fail /\ "RedialStrippedName" \in Deviations /\ EndsWithDot(dial[1])
     IN
     /\ hist' = Append(hist,
          IF ~fail THEN sent
-         ELSE IF "RedialStrippedName" \in Deviations /\ EndsWithDot(W.dialhost)
-              THEN [sent EXCEPT !.dials = <<dial, <<StripDots(W.dialhost), W.dialport>> >>]      \* second attempt succeeds
+         ELSE IF redial THEN [sent EXCEPT !.dials = <<dial, <<StripDots(dial[1]), dial[2]>> >>,    \* second attempt succeeds
+                                          !.carrier = <<StripDots(dial[1]), dial[2]>>]
               \* the proxy's own name failing to resolve is reported as ProxyError (wrapping the resolution error)
-              ELSE Obs(u, perreq, fail, IF W.mode = "direct" THEN "NameResolutionError" ELSE "ProxyError", <<dial>>, <<>>, <<>>))
+              ELSE Obs(u, perreq, fail, close, IF W.mode = "direct" THEN "NameResolutionError" ELSE "ProxyError",
+                       <<dial>>, <<>>, <<>>, <<>>))
+    /\ pools' = (key :> [dial |-> dial, open |-> (~fail \/ redial) /\ ~close]) @@ pools
     /\ defaults' = IF "DefaultHeadersMutated" \in Deviations /\ W.mode = "forward" /\ ~perreq
                       /\ defaults.nonempty /\ defaults.host = NONE
                       \* (the mapping is filled before the connection is made: also when resolution then fails)
                    THEN [defaults EXCEPT !.host = NetLoc(R)]
                    ELSE defaults
 
-Request(u, perreq, fail) ==
+Request1(u, perreq, fail, close, R, W) == Step(u, perreq, fail, close, R, W, Source(perreq), KeyOf(W))
+Request(u, perreq, fail, close) ==
     /\ Len(hist) < MaxReq
-    /\ Step(u, perreq, fail, Ref(u), WireOf(Ref(u), PxOf(px), IF px = NONE THEN Ref(<<>>) ELSE Ref(px)), Source(perreq))
+    /\ Request1(u, perreq, fail, close, Ref(u), WireOf(Ref(u), PxOf(px), IF px = NONE THEN Ref(<<>>) ELSE Ref(px)))
     /\ UNCHANGED <<s, px, defaults0>>
 
-HInit == /\ s = <<>> /\ px \in {NONE, ProxyText} /\ hist = <<>>
+HInit == /\ s = <<>> /\ px \in PxChoices /\ hist = <<>> /\ pools = <<>>
          /\ defaults0 \in {[nonempty |-> b, host |-> NONE] : b \in BOOLEAN} /\ defaults = defaults0
-HNext == \E u \in Origins, perreq \in BOOLEAN, fail \in BOOLEAN : Request(u, perreq, fail)
+HNext == \E u \in Origins, perreq \in PerReqs, fail \in Fails, close \in Closes : Request(u, perreq, fail, close)
 HSpec == HInit /\ [][HNext]_hvars
 
 -----------------------------------------------------------------------------
@@ -85,5 +106,7 @@ WireDialHostEveryAttempt == hist # <<>> => "Wire:DialHost" \notin WireClauses(La
 EveryRequestConforms == hist # <<>> => WireClauses(Last) = {}
 DefaultHeadersUnchanged == defaults = defaults0
 \* a resolution failure surfaces as an error and nothing is sent
+\* Equivalent consecutive URLs share the kept-alive connection
+EquivalentReuse == Len(hist) >= 2 => HistPairSet(hist[Len(hist) - 1], Last) = {}
 FaultSurfaces == hist # <<>> /\ Last.fault => Last.k # "sent" /\ Last.req = <<>>
 =============================================================================
